@@ -300,3 +300,26 @@ def run_nl(case, entry="cp", kktsolver=None, storage="dense", options=None, faul
             "nf": rec.nf, "ns": rec.ns, "det": det, "res": res, "rec": rec, "refused": getattr(fam, "refused", 0),
             "ls": rec.ls}
     return trace, info
+
+
+def chol2_first_factor_detects(I, storage):
+    """Would the first Cholesky factorisation of kkt_chol2 (S = P + G'G, identity scaling) raise ArithmeticError on this
+    exactly singular S?  Same library calls as the code under test, same data: a deterministic classification of the input."""
+    from cvxopt import lapack, cholmod, base
+    c, G, h, dims, A, b, P = problem(I, storage)
+    n = I["n"]
+    try:
+        if storage == "dense" or isinstance(P, matrix):
+            S = matrix(0.0, (n, n))
+            base.syrk(matrix(G), S, trans='T')
+            S += matrix(P)
+            lapack.potrf(S)
+        else:
+            S = spmatrix([], [], [], (n, n), 'd')
+            base.syrk(G, S, trans='T')
+            S += P
+            F = cholmod.symbolic(S)
+            cholmod.numeric(S, F)
+        return False
+    except ArithmeticError:
+        return True
